@@ -44,7 +44,9 @@ func nextFreshType() protoreflect.MessageType {
 			}
 			return true
 		})
-		sort.Slice(freshTypes, func(i, j int) bool { return freshTypes[i].Descriptor().FullName() < freshTypes[j].Descriptor().FullName() })
+		sort.Slice(freshTypes, func(i, j int) bool {
+			return freshTypes[i].Descriptor().FullName() < freshTypes[j].Descriptor().FullName()
+		})
 	})
 	if freshNext >= len(freshTypes) {
 		return nil
@@ -300,7 +302,9 @@ func onceExec(c core.Case) core.Case {
 	return core.Case{"ok": why == "", "why": why, "type": name}
 }
 
-func mtID(mt protoreflect.MessageType) uintptr { return uintptr(unsafe.Pointer(mt.(*impl.MessageInfo))) }
+func mtID(mt protoreflect.MessageType) uintptr {
+	return uintptr(unsafe.Pointer(mt.(*impl.MessageInfo)))
+}
 
 func onceGen(r *rand.Rand, n int, emit func(core.Case)) {
 	for i := 0; i < n; i++ {
